@@ -313,7 +313,17 @@ public:
     {
         m_resetFunctor(theInstance);
 
-        m_availableList.push_back(theInstance);
+        // This is called from destructors, so a failure to
+        // make room in the list must not leave the function:
+        // give the instance back for good instead.
+        try
+        {
+            m_availableList.push_back(theInstance);
+        }
+        catch(...)
+        {
+            m_deleteFunctor(theInstance);
+        }
 
         return true;
     }
